@@ -43,8 +43,8 @@ CHECKS["C19"] = dict(
     category="exploration",
     text="Two (sampled: three) real caller threads under a baton-passing scheduler; every line event (sampled runs: every "
          "bytecode of the publishing functions) of library, generated and world code is a yield point. Quick: every single "
-         "pre-emption placement of either thread in five racing shapes on three fixed worlds, every pair of placements "
-         "(build-check path x entry point / method body / lookup) on one, plus 1600 seeded scenarios under placed / PCT / "
+         "pre-emption placement of either thread in seven racing shapes on three fixed worlds, every pair of placements "
+         "(build-check path x entry point / method body / lookup) on one, plus 2400 seeded scenarios under placed / PCT / "
          "random-walk schedules. Each operation must equal its solo outcome on a fresh function, the function must afterwards "
          "agree with a fresh build on the whole corpus, no deadlock, bounded steps.",
     design_ref="DESIGN.md 4/C19",
